@@ -293,6 +293,29 @@ def check_case(case, rec):
             if step == "run":
                 prog.run()
                 want = set(range(len(nodes)))
+            elif step[0] == "grow_late":
+                # a model assembled consumer first: the consumer is looked at while the command it refers to does not
+                # exist yet (that read is refused), then the missing command is added and work goes on
+                if case.get("build") == "api_objects" or case.get("drop_program"):
+                    continue
+                from mpilot.exceptions import MPilotError
+
+                m = len(nodes)
+                consumer = {"A": m, "L": [step[1] % m]}
+                prog.add_command(prog.find_command_class("Node"), name(m + 1), {"A": name(m), "L": [name(consumer["L"][0])]})
+                try:
+                    commands[name(m + 1)].result
+                    fails.append(Failure("incomplete_model_read_succeeds|%s" % sc, "step %d" % si))
+                    break
+                except MPilotError:
+                    pass
+                prog.add_command(prog.find_command_class("Src"), name(m), {"V": 40 + m})
+                nodes.append({"src": True, "V": 40 + m})
+                nodes.append(consumer)
+                n = len(nodes)
+                allowed = executed | deps(nodes, consumer["L"][0])  # a refused read may have evaluated what did exist
+                want = set(int(k[1:]) for k in counts()) & allowed | executed
+                rec.label("grow_late")
             elif step[0] == "extend":
                 extend(prog, nodes, step[1], case.get("build") == "api_objects")
                 n = len(nodes)
@@ -376,6 +399,7 @@ def small_dags(ctx):
     top = 3 if ctx.quick else 4
     scripts = [["run", "run", ["read", 0]], [["read_twice", 99], "run", ["read", 1], "run"]]
     grow = ["run", ["extend", [{"A": 0}, {"L": [1, 0], "N": [[2]]}]], "run", ["read", 1], "run"]
+    late = [["grow_late", 0], "run", ["read", 99], ["grow_late", 1], ["read_twice", 98], "run"]
     for n in range(1, top + 1):
         ref_choices = []
         for j in range(n):
@@ -407,6 +431,7 @@ def small_dags(ctx):
                     if vi == 0:
                         yield {"nodes": vnodes, "order": list(range(n)), "build": "api", "steps": grow}
                         yield {"nodes": vnodes, "order": list(range(n)), "build": "source", "steps": grow[1:]}
+                        yield {"nodes": vnodes, "order": list(range(n)), "build": "api" if n % 2 else "source", "steps": late}
                         yield {"nodes": vnodes, "order": list(range(n)), "build": "api_objects", "steps": scripts[1]}
                         yield {"nodes": vnodes, "order": list(range(n)), "build": "api_shared_lists", "steps": scripts[0]}
 
@@ -483,6 +508,10 @@ def dag_cases(draw):
             steps.insert(draw(st.integers(0, len(steps))), ["extend", draw(st.lists(spec, min_size=1, max_size=3))])
         if draw(st.booleans()):
             steps.append("run")
+    if draw(st.integers(0, 3)) == 0:
+        for _ in range(draw(st.integers(1, 2))):
+            steps.insert(draw(st.integers(0, len(steps))), ["grow_late", draw(st.integers(0, 40))])
+        steps.append("run")
     builds = ["source", "api", "api_objects"] + ([] if typed else ["api_shared_lists"])
     case = {"nodes": nodes, "order": order, "build": draw(st.sampled_from(builds)), "steps": steps}
     if draw(st.integers(0, 5)) == 0:
